@@ -128,6 +128,8 @@ structure St where
   edited : Bool := false        -- the program has assigned ARGV / ARGC or executed nextfile
   visits : List Visit := []     -- newest first
   ilog : List LogEntry := []    -- newest first: operand fetches and record deliveries in one sequence
+  -- `callDepth`: the number of user-function calls in progress
+  depth : Nat := 0
 
 def St.view (s : St) : View := ⟨s.line, s.nr, s.fnr, s.filename, s.vars⟩
 
@@ -187,6 +189,21 @@ def St.dropScanner (s : St) : St := { s with cur := none, edited := true }
 def St.setStatus (s : St) (n : Nat) : St := { s with status := n }
 def St.setArgv (s : St) (i : Nat) (v : Bytes) : St := { s with argv := setPad s.argv i v, edited := true }
 def St.setArgc (s : St) (n : Nat) : St := { s with argc := n, edited := true }
+
+/-- `maxCallDepth` of `interp/interp.go` -/
+def maxCallDepth : Nat := 1000
+
+/-- `p.callDepth++` / `p.callDepth--` around the body of a user function (CallUser) — the decrement happens on every way
+out of the body, also when it is left by next / nextfile / exit -/
+def St.enterCall (s : St) : St := { s with depth := s.depth + 1 }
+def St.leaveCall (s : St) : St := { s with depth := s.depth - 1 }
+
+def eraseAssoc (k : Bytes) : List (Bytes × List Rec) → List (Bytes × List Rec)
+  | [] => []
+  | (k', v) :: rest => if k' = k then rest else (k', v) :: eraseAssoc k rest
+
+/-- `close(file)`: forget the getline stream of that name (the next `getline < file` reopens it from the start) -/
+def St.closeStream (s : St) (f : Bytes) : St := { s with streams := eraseAssoc f s.streams }
 
 inductive Take
   | got (r : Rec)
@@ -254,6 +271,8 @@ inductive Op
   | cond (c : View → Bool) (body : List Op)
   | setArgv (i : Nat) (v : Bytes)
   | setArgc (n : Nat)
+  /-- `close(file)` -/
+  | close (f : Bytes)
 
 inductive Sig
   | normal | next | nextfile | exit | fatal
@@ -303,11 +322,15 @@ def execOp : Op → St → Sig × St
   | .getlineVar v, s => (.normal, doGetlineVar s v)
   | .getlineFile f, s => (.normal, doGetlineFile s f)
   | .getlineVarFile v f, s => (.normal, doGetlineVarFile s v f)
-  | .call body, s => execOps body s
+  | .call body, s =>
+    if s.depth ≥ maxCallDepth then (.fatal, s) else
+    match execOps body s.enterCall with
+    | (sig, s1) => (sig, s1.leaveCall)
   | .loop n body, s => iter (fun s => execOps body s) n s
   | .cond c body, s => if c s.view then execOps body s else (.normal, s)
   | .setArgv i v, s => (.normal, s.setArgv i v)
   | .setArgc n, s => (.normal, s.setArgc n)
+  | .close f, s => (.normal, s.closeStream f)
 def execOps : List Op → St → Sig × St
   | [], s => (.normal, s)
   | o :: os, s =>
